@@ -37,7 +37,8 @@ Inductive instr :=
 | ISwap (a b : nat)               (* std::vector::swap of two callback queues *)
 | IRunB (tgt : nat)               (* cur->Run(); if the callback itself calls Execute() continue, else goto tgt *)
 | IPushR (q : nat)                (* queue.push(callback (self,reg)); reg++   (Execute called from inside a callback) *)
-| ICnt.                           (* cnt++ *)
+| ICnt                            (* cnt++ *)
+| ITimedWait (c m : nat).         (* pthread_cond_timedwait: as IWait, reg := 1 (signalled) / 0 (timed out) *)
 
 Inductive status := NotStarted | Fresh | Ready | Asleep (c m : nat) | Woken (m : nat) | Done.
 
@@ -221,6 +222,15 @@ Definition exec_instr (s : state) (t : tid) (pick : nat) (i : instr) : option st
       let c := (t, reg th) in
       Some (set_thr (add_subm (set_que s q (que s q ++ [c])) c) t (next (with_reg th (S (reg th)))))
   | ICnt => Some (set_thr s t (next (with_cnt th (S (cnt th)))))
+  | ITimedWait c m =>
+      if negb (live s c && live s m) then uaf else
+      match own s m with
+      | Some o => if Nat.eqb o t
+                  then Some (set_thr (set_wq (set_own s m None) c (wq s c ++ [t])) t
+                                     (with_reg (with_stat th (Asleep c m)) 1))
+                  else Some (set_fault s BadUnlock)
+      | None => Some (set_fault s BadUnlock)
+      end
   end.
 
 Inductive label := LStep (t : tid) (pick : nat) | LSpur (t : tid).
@@ -239,6 +249,14 @@ Definition exec (P : programs) (s : state) (l : label) : option state :=
           match own s m with
           | None => Some (set_thr (set_own s m (Some t)) t (next (with_stat th Ready)))
           | Some _ => None
+          end
+      | Asleep c m =>
+          (* a timed wait may time out at any moment: the thread leaves the wait queue with reg = 0 *)
+          match fetch P th with
+          | ITimedWait _ _ =>
+              Some (set_thr (set_wq s c (filter (fun u => negb (Nat.eqb u t)) (wq s c))) t
+                            (with_reg (with_stat th (Woken m)) 0))
+          | _ => None
           end
       | _ => None
       end
@@ -276,7 +294,7 @@ Qed.
    operations only, exactly as in the cooperative scheduler of the harness. *)
 Definition is_sync (i : instr) : bool :=
   match i with
-  | ILock _ | IUnlock _ | IWait _ _ | ISignal _ | IBroadcast _ | ICreateI _ | IJoinI _ => true
+  | ILock _ | IUnlock _ | IWait _ _ | ISignal _ | IBroadcast _ | ICreateI _ | IJoinI _ | ITimedWait _ _ => true
   | _ => false
   end.
 
@@ -325,6 +343,7 @@ Definition event_of (P : programs) (s : state) (t : tid) : event :=
   match stat th with
   | Fresh => (t, 0, 0, 0)
   | Woken m => (t, 4, m, 0)
+  | Asleep _ _ => (t, 13, 0, 0)
   | _ =>
       match fetch P th with
       | ILock m => (t, 1, m, 0)
@@ -334,18 +353,31 @@ Definition event_of (P : programs) (s : state) (t : tid) : event :=
       | IBroadcast c => (t, 6, c, 0)
       | ICreateI b => (t, 7, b + cnt th, 0)
       | IJoinI b => (t, 8, b + cnt th, 0)
+      | ITimedWait c m => (t, 12, c, m)
       | _ => (t, 10, 0, 0)
       end
   end.
 
 Inductive outcome := Finished | Deadlock | Faulted (h : hazard) | OutOfFuel.
 
-(* schedule entry c: c < 500: run the (c mod n)-th enabled thread, a signal wakes waiter c / n;
-   500 <= c < 1000: keep running the thread that ran last if it is enabled, otherwise the
-   ((c-500) mod n)-th enabled one (no preemption); c >= 1000: spurious wake-up of a sleeper.
-   An exhausted schedule continues with 500. *)
-Fixpoint run (P : programs) (fuel : nat) (s : state) (sched : list nat) (last : tid) (acc : list event)
-  : state * list event * outcome :=
+(* Scheduling points of the runner = of the cooperative scheduler in the harness: before every
+   synchronisation operation, and once more right AFTER every unlock (event Y), so that another thread can run
+   between an unlock and whatever the unlocking thread does next.  yl = threads that owe that Y step.
+   A thread asleep in a timed wait is always schedulable (time-out, event T); such threads come after the
+   really enabled ones.
+   schedule entry c: c < 500: run the (c mod n)-th schedulable thread, a signal wakes waiter c / n;
+   500 <= c < 1000: keep running the thread that ran last if it is really enabled, otherwise the
+   ((c-500) mod n1)-th really enabled one, otherwise the first time-out; c >= 1000: spurious wake-up of a
+   sleeper.  An exhausted schedule continues with 500. *)
+Definition tmo_able (P : programs) (s : state) (t : tid) : bool :=
+  match stat (thr s t) with
+  | Asleep _ _ => match fetch P (thr s t) with ITimedWait _ _ => true | _ => false end
+  | _ => false
+  end.
+Definition inb (t : tid) (l : list tid) : bool := existsb (Nat.eqb t) l.
+
+Fixpoint run (P : programs) (fuel : nat) (s : state) (sched : list nat) (last : tid) (yl : list tid)
+  (acc : list event) : state * list event * outcome :=
   match fuel with
   | 0 => (s, rev acc, OutOfFuel)
   | S f =>
@@ -356,26 +388,39 @@ Fixpoint run (P : programs) (fuel : nat) (s : state) (sched : list nat) (last : 
           let rest := tl sched in
           if 1000 <=? c then
             match sleepers s with
-            | [] => run P f s rest last acc
+            | [] => run P f s rest last yl acc
             | sl => let t := nth ((c - 1000) mod length sl) sl 0 in
                     match exec P s (LSpur t) with
-                    | Some s' => run P f s' rest last ((t, 9, 0, 0) :: acc)
+                    | Some s' => run P f s' rest last yl ((t, 9, 0, 0) :: acc)
                     | None => (s, rev acc, OutOfFuel)
                     end
             end
           else
-            match enabled P s with
+            let en1 := filter (fun t => inb t yl || can_run P s t) (seq 0 (nthr s)) in
+            let en2 := filter (tmo_able P s) (seq 0 (nthr s)) in
+            match en1 ++ en2 with
             | [] => (s, rev acc, if all_done s then Finished else Deadlock)
             | en => let n := length en in
                     let t := if 500 <=? c
-                             then (if existsb (Nat.eqb last) en then last else nth ((c - 500) mod n) en 0)
+                             then (if inb last en1 then last
+                                   else match en1 with
+                                        | [] => hd 0 en2
+                                        | _ => nth ((c - 500) mod length en1) en1 0
+                                        end)
                              else nth (c mod n) en 0 in
                     let pick := if 500 <=? c then 0 else c / n in
-                    let ev := event_of P s t in
-                    match exec P s (LStep t pick) with
-                    | Some s' => run P f (silent P 200 s' t) rest t (ev :: acc)
-                    | None => (s, rev acc, OutOfFuel)
-                    end
+                    if inb t yl then
+                      run P f (silent P 200 s t) rest t (filter (fun u => negb (Nat.eqb u t)) yl) ((t, 11, 0, 0) :: acc)
+                    else
+                      let ev := event_of P s t in
+                      match exec P s (LStep t pick) with
+                      | Some s' =>
+                          match ev with
+                          | (_, 2, _, _) => run P f s' rest t (t :: yl) (ev :: acc)
+                          | _ => run P f (silent P 200 s' t) rest t yl (ev :: acc)
+                          end
+                      | None => (s, rev acc, OutOfFuel)
+                      end
             end
       end
   end.
